@@ -56,3 +56,57 @@ def keys(d):
 
 def items(d):
     return [(kterm(k), v) for k, v in d.items()]
+
+
+from .engine import SymDict as _SymDictBase
+
+
+class SymStrMap(_SymDictBase):
+    """dict with string keys and an UNBOUNDED, symbolic key set: membership is a z3 array String -> Bool.
+    Supports `k in d`, `d[k] = v`, and `d[k]` for keys stored on this path (found by forking on key equality)."""
+
+    def __init__(self, member, name="map"):
+        self.member = member
+        self.name = name
+        self.stored = []          # (key, value) in program order
+
+    @staticmethod
+    def fresh(name="map"):
+        from .values import fresh_name
+        return SymStrMap(z3.Const(fresh_name(name), z3.ArraySort(z3.StringSort(), z3.BoolSort())), name)
+
+    def _key(self, E, k, node):
+        from .values import is_str_like
+        if not is_str_like(k):
+            raise Unsupported("non-string key %r for a string-keyed symbolic map" % (k,))
+        return z(k)
+
+    def has(self, E, k):
+        return z3.Select(self.member, self._key(E, k, None))
+
+    def setitem(self, E, k, v, node):
+        self.member = z3.Store(self.member, self._key(E, k, node), z3.BoolVal(True))
+        self.stored.append((k, v))
+
+    def getitem(self, E, k, node):
+        kk = self._key(E, k, node)
+        for k2, v in reversed(self.stored):
+            if E.branch(kk == z(k2)):
+                return v
+        if E.branch(z3.Not(z3.Select(self.member, kk))):
+            E.raise_("KeyError", node, "safety")
+        raise Unsupported("value of a key of a symbolic map that was not stored on this path")
+
+    def method(self, E, name, args, kwargs, node):
+        raise Unsupported("method %s of a symbolic string map" % name)
+
+    def iterspec(self, E):
+        raise Unsupported("iteration over a symbolic string map")
+
+    def size(self):
+        raise Unsupported("len of a symbolic string map")
+
+    def snapshot(self):
+        c = SymStrMap(self.member, self.name)
+        c.stored = list(self.stored)
+        return c
